@@ -28,6 +28,9 @@ def value_layouts(rng, tag, final_nl=True):
         (" %s cafe\u0301 \u212b\n \ufeffx\u200d \U0001f600\n" % w, "%s cafe\u0301 \u212b\n \ufeffx\u200d \U0001f600" % w),
         (" %s caf\u00e9\u00a0b\n" % w, "%s caf\u00e9\u00a0b" % w),
     ]
+    tc = [chr(0x400 + rng.randrange(64)) for _ in range(3)]   # character stress: every UTF-8 trailing byte at line ends
+    opts.append((" %s%s\n c%s\n" % (w, tc[0], tc[1]), "%s%s\n c%s" % (w, tc[0], tc[1])))
+    opts.append((" %s %s\n" % (w, tc[2]), "%s %s" % (w, tc[2])))
     if rng.random() < 0.05:          # size stress: long lines, many continuation lines
         k = rng.choice([72, 73, 255, 256, 1023, 1024, 4095, 4096, 4097, 8192])
         n = rng.choice([10, 11, 100, 101])
